@@ -340,3 +340,56 @@ R.contract(
     # chunks = int(suggested) with suggested > 1 already established: the defensive re-test is dead code
     unreachable_ok=["if chunks <= 1"],
 )
+
+# ---- completeness of the shard merge: nothing a walked tier offers is dropped while there is room.
+# "Stage-level parallelism is indistinguishable from sequential execution": the sequential tier walk takes every
+# non-duplicate hit of a tier until k is reached; the merge must do the same with the union of the shards' hits.
+# Clause (separate variant, own invariants): if fewer than k hits are returned, the id of every hit that any shard
+# offered for any tier is among the returned ids.
+_S = "shard_hits_by_tier"
+_ALL_TIER_IDS_SEEN = ("forall(a, 0 <= a < len(%(S)s), implies(%(T)s in %(S)s[a], "
+                      "forall(i, 0 <= i < len(%(S)s[a][%(T)s]), hit_id(%(S)s[a][%(T)s][i]) in %(seen)s)))")
+R.contract(
+    SH + "merge_tier_hits_across_shards_dict", "C09", name="merge_tier_hits_across_shards_dict[completeness]", callee=False,
+    types={"shard_hits_by_tier": "List[Dict[str, List[HitD]]]", "tiers": "List[str]", "k_retrieval": "int"},
+    returns="Tuple[List[HitD], List[str]]",
+    # goff[a] = position in `bucket` where shard a's hits for the current tier start (explicit witnesses)
+    ghost={"gseen": ("Set[str]", "empty"), "goff": ("List[int]", "empty")},
+    requires=[("k-at-least-1", "k_retrieval >= 1")],
+    asserts={
+        "seen": ["ghost:gseen = seen"],
+        "call:seen.add": ["ghost:gseen = seen"],
+        "bucket": ["ghost:goff.clear()"],
+        "call:bucket.extend": ["ghost:goff.append(len(bucket) - len(hits))"],
+        "call:bucket.sort": ["forall(a, 0 <= a < len(%s), implies(tier in %s[a], forall(i, 0 <= i < len(%s[a][tier]), "
+                             "exists(p, 0 <= p < len(bucket), bucket[p] == %s[a][tier][i]))))" % (_S, _S, _S, _S)],
+    },
+    ensures=[
+        ("nothing-offered-is-dropped-while-there-is-room",
+         "implies(len(result[0]) < k_retrieval, forall(t, 0 <= t < len(tiers), " +
+         _ALL_TIER_IDS_SEEN % {"S": _S, "T": "tiers[t]", "seen": "gseen"} + "))"),
+        ("returned-ids-are-exactly-the-seen-ids",
+         "forall((s, 'str'), s in gseen, exists(j, 0 <= j < len(result[0]), hit_id(result[0][j]) == s))"),
+    ],
+    raises="none",
+    loops={
+        0: {"index": "_t", "modifies": ["gseen", "goff"], "inv": [
+            "len(out) < k_retrieval and gseen == seen",
+            "forall(t, 0 <= t < _t, " + _ALL_TIER_IDS_SEEN % {"S": _S, "T": "tiers[t]", "seen": "seen"} + ")",
+            "forall((s, 'str'), s in seen, exists(j, 0 <= j < len(out), hit_id(out[j]) == s))",
+        ]},
+        1: {"modifies": ["goff"], "inv": [
+            "len(goff) == _i",
+            "forall(a, 0 <= a < _i, 0 <= goff[a] and implies(tier in %s[a], goff[a] + len(%s[a][tier]) <= len(bucket) and "
+            "forall(i, 0 <= i < len(%s[a][tier]), bucket[goff[a] + i] == %s[a][tier][i])))" % (_S, _S, _S, _S),
+        ]},
+        2: {"modifies": ["gseen"], "inv": [
+            "len(out) < k_retrieval and gseen == seen",
+            "forall(p, 0 <= p < _i, hit_id(_iter[p]) in seen)",
+            "forall((s, 'str'), s in pre_loop(seen), s in seen)",
+            "forall((s, 'str'), s in seen, exists(j, 0 <= j < len(out), hit_id(out[j]) == s))",
+        ]},
+    },
+    locals={"seen": "Set[str]", "out": "List[HitD]", "used_tiers": "List[str]", "bucket": "List[HitD]"},
+    timeout_ms=20000,
+)
